@@ -333,6 +333,7 @@ func typeIdent(t reflect.Type) int {
 	}
 	return id
 }
+
 var structCacheMu sync.Mutex
 
 func structOf(fields []reflect.StructField) reflect.Type {
